@@ -208,6 +208,53 @@ func TestC24(t *testing.T) {
 	r.Cases("rollback-restart", r.N(16, 250), func(c *ev.Case) {
 		walletkit.RunRollback(c, env, fmt.Sprintf("%s/r%d", base, c.Index), obs)
 	})
+	// a wallet restored from its keys: an address recovery is in progress while the blocks arrive, and the wallet is
+	// restarted on its own store in between (walletkit/recovery.go)
+	r.Cases("recovery", r.N(24, 600), func(c *ev.Case) {
+		walletkit.RunRecovery(c, env, fmt.Sprintf("%s/v%d", base, c.Index), func(p *walletkit.RecPoint) bool {
+			have := map[bc.Hash]*account.UTXO{}
+			for _, u := range p.Std {
+				have[u.OutputID] = u
+			}
+			c.Eval(1)
+			for id, e := range p.Expected {
+				branch := "receive"
+				if e.Change {
+					branch = "change"
+				}
+				c.Count("recovery_expected_outputs_compared:"+branch, 1)
+				u := have[id]
+				after := "no-restart"
+				if p.Restarts > 0 {
+					after = "after-restart"
+				}
+				if u == nil {
+					c.Violation("recovery:wallet-utxo:missing:"+branch+"-address:"+after,
+						"a wallet restored from its keys lacks an unspent output of the main chain that pays an address the account owns (a scan of the main chain from genesis yields it)",
+						map[string]interface{}{"output": id.String(), "amount": e.U.Amount, "paid_in_block_height": e.Height, "address": fmt.Sprintf("acct%d/%s#%d", e.Account, branch, e.Index),
+							"main_chain_tip": walletkit.BlkName(p.Best), "wallet_restarts_so_far": p.Restarts, "history": p.Trail})
+					return false
+				}
+				if u.Amount != e.U.Amount || u.AssetID != e.U.Asset || !bytes.Equal(u.ControlProgram, e.U.Program) {
+					c.Violation("recovery:wallet-utxo:field-differs", "a record of the restored wallet differs from the output on the main chain",
+						map[string]interface{}{"output": id.String(), "history": p.Trail})
+					return false
+				}
+			}
+			for id := range have {
+				if p.Expected[id] == nil {
+					c.Violation("recovery:wallet-utxo:extra", "the restored wallet holds an unspent output that the scan of the main chain does not yield",
+						map[string]interface{}{"output": id.String(), "history": p.Trail})
+					return false
+				}
+			}
+			return true
+		})
+	})
+	r.Floor("recovery_histories", 18)
+	r.Floor("recovery_histories_with_restart", 10)
+	r.Floor("recovery_expected_outputs_compared:receive", 200)
+	r.Floor("recovery_expected_outputs_compared:change", 200)
 	r.Floor("quiescent_points", 300)
 	r.Floor("reorganisation_walks", 30)
 	r.Floor("reorganisation_walks_by_restarted_wallet", 8)
